@@ -56,6 +56,10 @@ def strat_sh(tier):
         'sub': st.just('sh'),
         'args': st.lists(_arg, min_size=0, max_size=6),
         'style': st.booleans(),
+        # process history: how many DISTINCT arguments were quoted (in both styles) earlier in the process, and whether the same
+        # arguments were rendered in the other style straight before
+        'history': st.sampled_from([0] * 400 + [17000, 17000, 33000]),
+        'other_first': st.booleans(),
     })
 
 
@@ -100,6 +104,23 @@ def _shell_split(shell, text, workdir):
     return ('ok', argv)
 
 
+_HIST = [0]
+
+
+def _history(case, out, other):
+    n = case.get('history') or 0
+    if n:
+        _HIST[0] += 1
+        for i in range(0, n, 500):
+            batch = ['earlier arg %d-%d-%d' % (os.getpid(), _HIST[0], j) for j in range(i, min(n, i + 500))]
+            strutils.args2sh(batch)
+            strutils.args2cmd(batch)
+        out.label('after_%d_distinct_arguments' % n)
+    if case.get('other_first'):
+        _call(other, list(case['args']))
+        out.label('other_style_first')
+
+
 def run_sh(case):
     out = Outcome()
     args = list(case['args'])
@@ -107,6 +128,7 @@ def run_sh(case):
         if '\0' in a:
             raise HarnessError('NUL in argument')
         a.encode('utf-8')
+    _history(case, out, strutils.args2cmd)
     r = _call(strutils.args2sh, args)
     if r[0] != 'ok' or not isinstance(r[1], str):
         return out.fail('c14.sh.raises', 'args2sh(%r) -> %r' % (args, r))
@@ -197,12 +219,17 @@ def strat_cmd(tier):
         'sub': st.just('cmd'),
         'args': st.lists(_carg, min_size=0, max_size=6),
         'style': st.booleans(),
+        # process history: how many DISTINCT arguments were quoted (in both styles) earlier in the process, and whether the same
+        # arguments were rendered in the other style straight before
+        'history': st.sampled_from([0] * 400 + [17000, 17000, 33000]),
+        'other_first': st.booleans(),
     })
 
 
 def run_cmd(case):
     out = Outcome()
     args = list(case['args'])
+    _history(case, out, strutils.args2sh)
     r = _call(strutils.args2cmd, args)
     if r[0] != 'ok' or not isinstance(r[1], str):
         return out.fail('c14.cmd.raises', 'args2cmd(%r) -> %r' % (args, r))
